@@ -18,7 +18,9 @@ Release(s) == IF s.holder # 0 /\ ~Alive(s.hs[s.holder]) THEN [s EXCEPT !.holder 
 
 \* one complete API-level action; result [s, res]
 Act(s, a, h, p) ==
-    CASE a \in {"open", "openstats", "openasync"} ->
+    \* "openalias": the same directory reached through another path name (a symbolic link, a path with "." components):
+    \* ownership belongs to the directory, not to the spelling of its path
+    CASE a \in {"open", "openstats", "openasync", "openalias"} ->
             IF s.holder = 0
             THEN [s |-> [s EXCEPT !.holder = h,
                                   !.hs[h] = [st |-> "open", p |-> p, cas |-> (a # "openstats"), clones |-> 0, stats |-> TRUE, wrote |-> TRUE]],
@@ -38,6 +40,9 @@ Act(s, a, h, p) ==
       [] a = "cycle" -> IF s.holder = h \/ s.holder = 0
                         THEN [s |-> [s EXCEPT !.holder = h, !.hs[h] = [st |-> "open", p |-> p, cas |-> TRUE, clones |-> 0, stats |-> TRUE, wrote |-> TRUE]], res |-> "ok"]
                         ELSE [s |-> s, res |-> "AlreadyOpened"]
+      \* the owner runs the orphan clean-up of its OrphanStats (delete_orphans, then quarantine_orphans): whatever it removes,
+      \* the directory stays owned
+      [] a = "cleanup" -> IF s.hs[h].st = "open" /\ s.hs[h].stats THEN [s |-> s, res |-> "ok"] ELSE [s |-> s, res |-> "nohandle"]
       [] a = "spawn" -> [s |-> s, res |-> "ok"]      \* a grandchild process: no handle, must not keep the lock alive
       [] a = "put" -> IF s.hs[h].cas \/ s.hs[h].clones > 0 THEN [s |-> s, res |-> "ok"] ELSE [s |-> s, res |-> "nohandle"]
       [] a = "kill" -> [s |-> Release([s EXCEPT !.hs = [x \in Handles |-> IF s.hs[x].p = p THEN NoHandle ELSE s.hs[x]]]), res |-> "ok"]
